@@ -272,7 +272,9 @@ inductive Kind | raw | int | quoted | cmd
 def Kind.name : Kind → String
   | .raw => "raw" | .int => "int" | .quoted => "quoted" | .cmd => "cmd"
 
-def bytesOf (s : String) : Bytes := s.toUTF8.toList
+/-- bytes of an ASCII string (parameter names are ASCII constants of the source); written
+with `toList` so that the kernel can evaluate it -/
+def bytesOf (s : String) : Bytes := s.toList.map fun c => c.toNat.toUInt8
 
 /-- the parameter table of `jobScript`, in source order: name, kind, value -/
 def params (tbl : EscTable) (j : JobIn) : List (String × Kind × Bytes) :=
@@ -317,12 +319,13 @@ def paramSpec : List (String × String) :=
 
 def varKey (name : String) : Bytes := bytesOf ("__MRO_" ++ name ++ "__")
 
-/-- the old/new argument list handed to `strings.NewReplacer` -/
+/-- the old/new argument list handed to `strings.NewReplacer` (Go guards the line loop with
+`strings.Contains(template, rkey)`; when no line holds the key the loop adds nothing, so the
+guard is not modelled) -/
 def replArgs (tmpl : Bytes) (ps : List (Bytes × Bytes)) : List (Bytes × Bytes) :=
-  ps.flatMap fun (k, v) =>
-    if !v.isEmpty then [(k, v)]
-    else if containsB tmpl k then ((splitNl tmpl).filter fun l => containsB l k).map fun l => (l, [])
-    else []
+  ps.flatMap fun kv =>
+    if !kv.2.isEmpty then [(kv.1, kv.2)]
+    else ((splitNl tmpl).filter fun l => containsB l kv.1).map fun l => (l, [])
 
 def jobScript (tbl : EscTable) (j : JobIn) : Bytes :=
   replaceGo (replArgs j.tmpl ((params tbl j).map fun p => (varKey p.1, p.2.2))) 0 j.tmpl
@@ -436,5 +439,109 @@ def expectedToks (g : Given) (ls : List SegLine) : List Tok :=
 def givenOf (tbl : EscTable) (j : JobIn) : Given :=
   { envs := sortEnvs tbl (mergeEnvs j.threadEnvs (natDigits (resources j).1) j.envs),
     cmd := j.cmd, argv := j.argv, stdout := j.stdout, stderr := j.stderr, workdir := j.workdir }
+
+/-! ## Well-formed segmentation: when `renderScript` IS the replacer
+
+`wfTemplate names maybeEmpty ls`: a decidable check on a template cut into lines and segments
+under which, for ALL values (only the parameters in `maybeEmpty` may be empty), Go's replacer
+on the template text gives exactly `renderScript` (theorem `replace_eq_render`).  At every
+position of the text that the replacer can examine:
+* inside literal text no parameter key starts, and no removable line text starts;
+* at a variable exactly that parameter's key starts (no other key is a prefix there);
+* a removable line text (the text of a line holding a `maybeEmpty` variable) starts only at the
+  start of a line with exactly that text;
+* a line holding a `maybeEmpty` variable starts with literal text or is that variable alone;
+* a line contains the key of a `maybeEmpty` parameter textually iff it has that variable. -/
+
+/-- key table: parameter name ↦ key bytes (`__MRO_name__`), in parameter order -/
+abbrev Keys := List (String × Bytes)
+
+def keyOf (keys : Keys) (n : String) : Bytes :=
+  match keys.find? fun nk => nk.1 == n with
+  | some nk => nk.2
+  | none => []
+
+def segTextK (keys : Keys) (l : SegLine) : Bytes :=
+  (l.map fun s => if segIsVar s then keyOf keys s.1 else s.2).flatten
+
+def templateTextK (keys : Keys) (ls : List SegLine) : Bytes := joinNl (ls.map (segTextK keys))
+
+def keysAt (keys : Keys) (s : Bytes) : List String :=
+  (keys.filter fun nk => nk.2.isPrefixOf s).map (·.1)
+
+def noLineAt (R : List Bytes) (s : Bytes) : Bool := R.all fun L => !L.isPrefixOf s
+
+def heads (xs : List Bytes) : List UInt8 := (xs.filterMap List.head?).eraseDups
+
+/-- a position inside literal text (`first`: the first position of a line, where removable line
+texts are judged by the line check instead).  `kh`, `rh`: the first bytes of the keys and of
+the removable line texts — a key can only start where its first byte stands (this only makes
+the check cheap). -/
+def posOK (keys : Keys) (R : List Bytes) (first : Bool) (s : Bytes) : Bool :=
+  match s with
+  | [] => true
+  | b :: _ =>
+    (!(heads (keys.map (·.2))).contains b || (keysAt keys s).isEmpty)
+      && (first || !(heads R).contains b || noLineAt R s)
+
+def wfLit (keys : Keys) (R : List Bytes) : Bool → Bytes → Bytes → Bool
+  | _, [], _ => true
+  | first, b :: l, k => posOK keys R first (b :: l ++ k) && wfLit keys R false l k
+
+def wfSegs (keys : Keys) (R : List Bytes) : Bool → SegLine → Bytes → Bool
+  | _, [], _ => true
+  | first, s :: ss, k =>
+    if segIsVar s then
+      (keysAt keys (keyOf keys s.1 ++ (segTextK keys ss ++ k)) == [s.1])
+        && (first || noLineAt R (keyOf keys s.1 ++ (segTextK keys ss ++ k)))
+        && wfSegs keys R false ss k
+    else
+      wfLit keys R first s.2 (segTextK keys ss ++ k)
+        && wfSegs keys R (first && s.2.isEmpty) ss k
+
+def hasMaybeEmpty (maybeEmpty : List String) (l : SegLine) : Bool :=
+  l.any fun s => segIsVar s && maybeEmpty.contains s.1
+
+def startOK (maybeEmpty : List String) : SegLine → Bool
+  | ("", _ :: _) :: _ => true
+  | [(n, _)] => maybeEmpty.contains n
+  | _ => false
+
+def wfLine (keys : Keys) (maybeEmpty : List String) (R : List Bytes) (l : SegLine) (k : Bytes) : Bool :=
+  (R.all fun L => !L.isPrefixOf (segTextK keys l ++ k) || L == segTextK keys l)
+    && wfSegs keys R true l k
+    && (maybeEmpty.all fun X =>
+          containsB (segTextK keys l) (keyOf keys X) == l.any fun s => s.1 == X)
+    && (!hasMaybeEmpty maybeEmpty l || startOK maybeEmpty l)
+    && !(segTextK keys l).contains 0x0A
+    && l.all fun s => !segIsVar s || keys.any fun nk => nk.1 == s.1
+
+def afterLine (keys : Keys) (rest : List SegLine) : Bytes :=
+  match rest with
+  | [] => []
+  | _ => 0x0A :: templateTextK keys rest
+
+def wfLines (keys : Keys) (maybeEmpty : List String) (R : List Bytes) : List SegLine → Bool
+  | [] => true
+  | l :: rest =>
+    wfLine keys maybeEmpty R l (afterLine keys rest)
+      && (rest.isEmpty || posOK keys R false (afterLine keys rest))
+      && wfLines keys maybeEmpty R rest
+
+def removable (keys : Keys) (maybeEmpty : List String) (ls : List SegLine) : List Bytes :=
+  (ls.filter (hasMaybeEmpty maybeEmpty)).map (segTextK keys)
+
+def wfTemplate (keys : Keys) (maybeEmpty : List String) (ls : List SegLine) : Bool :=
+  !ls.isEmpty
+    && keys.all (fun nk => nk.1 != "" && !nk.2.isEmpty && keyOf keys nk.1 == nk.2)
+    && (removable keys maybeEmpty ls).all (fun L => !L.isEmpty)
+    && wfLines keys maybeEmpty (removable keys maybeEmpty ls) ls
+
+/-- the key table of `jobScript` (compared with the regenerated `Gen.jobScriptKeys`) -/
+def paramKeys : Keys := paramSpec.map fun p => (p.1, varKey p.1)
+
+/-- the parameters whose value can be empty: the raw ones (the job name never is, but that is
+not needed) -/
+def maybeEmptyParams : List String := ["JOB_NAME", "ACCOUNT", "RESOURCES"]
 
 end Martian.JobTemplate
